@@ -99,6 +99,18 @@ Theorem c10_identifier_roundtrip : forall c t follow f cr o es fr,
 Proof. exact identifier_rule. Qed.
 Print Assumptions c10_identifier_roundtrip.
 
+(** Integer-constant round trip (field ids, enum values, constants), at the level of the generated
+    rule IntConstant and its action strconv.ParseInt: for every 64-bit z, its decimal spelling
+    followed by end of input or an ASCII non-digit is consumed exactly and yields z, no error. *)
+Theorem c10_int_const_roundtrip : forall z follow f cr o es fr,
+  - 9223372036854775808 <= z <= 9223372036854775807 ->
+  stops p_digit follow -> (32 <= f)%nat ->
+  Peg.eval action val aerr VNil VBytes VList run_action rules f (CRef id_IntConstant) cr
+           (mkst (render_int z ++ follow) o es) fr =
+  Done true (VInt z) (mkst follow (o + Z.of_nat (List.length (render_int z))) es) fr.
+Proof. exact int_const_roundtrip. Qed.
+Print Assumptions c10_int_const_roundtrip.
+
 (** * Stage 2 and the separator/comment stages: refuted on the code as it is.
     Intended statement (FieldType longest match): for every identifier x that is not a base-type
     keyword, [typedef x T] parses to a typedef of the named type x.
@@ -173,6 +185,11 @@ Proof.
   split; [repeat constructor; unfold ascii; lia|]. split; [split; [unfold ascii; lia | reflexivity]|].
   vm_compute. reflexivity.
 Qed.
+
+Example c10_int_const_nonvacuous :
+  render_int (-9223372036854775808) = [45; 57; 50; 50; 51; 51; 55; 50; 48; 51; 54; 56; 53; 52; 55; 55; 53; 56; 48; 56]
+  /\ stops p_digit [59].
+Proof. split; [vm_compute; reflexivity | split; [unfold ascii; lia | reflexivity]]. Qed.
 
 (** a whole file through the model *)
 Example c10_parse_nonvacuous :
